@@ -36,6 +36,11 @@ pub fn fire(c: Cid, widx: usize, by_value: bool, ctx: FireCtx) {
                 }
             }
         }
+        // ... and when the harness does not know the slot of a live group member (inserted through `extend`),
+        // a wake on a dead member's waker is counted, conservatively, for every such member
+        if w.ch[c].dropped > 0 {
+            mark_unknown_slots(w, w.ch[c].slot.is_none());
+        }
         let done = w.ch[c].last == Last::Done;
         let ch = &mut w.ch[c];
         ch.any_woken = true;
@@ -73,6 +78,19 @@ pub fn fire(c: Cid, widx: usize, by_value: bool, ctx: FireCtx) {
     if let Err(p) = r {
         let m = panic_msg(&p);
         w(|w| w.violate(&["C01"], format!("invoking waker #{widx} of child {c} panicked: {m}")));
+    }
+}
+
+/// `all`: the dead member's own slot is unknown too, so the wake may belong to any live member
+fn mark_unknown_slots(w: &mut World, all: bool) {
+    for u in 0..w.ch.len() {
+        if (all || w.ch[u].slot.is_none()) && w.ch[u].dropped == 0 {
+            if let Some((p, _)) = w.ch[u].parent {
+                if matches!(w.ch[p].fam, Fam::FGroup | Fam::SGroup) && w.ch[p].cont == Cont::Group {
+                    w.ch[u].any_woken = true;
+                }
+            }
+        }
     }
 }
 
@@ -121,6 +139,9 @@ impl Wake for LogWaker {
                 if let Some(cur) = w.live_slot.get(&slot).cloned() {
                     w.ch[cur].any_woken = true;
                 }
+            }
+            if w.ch[self.cid].dropped > 0 {
+                mark_unknown_slots(w, w.ch[self.cid].slot.is_none());
             }
             w.ch[self.cid].any_woken = true;
             w.st.node_wakes += 1;
@@ -219,7 +240,7 @@ fn ret_epilogue(w: &mut World, id: Cid, r: Res) {
     }
 }
 
-fn leaf_poll(id: Cid, cx: &mut Context<'_>) -> Option<Res> {
+pub fn leaf_poll(id: Cid, cx: &mut Context<'_>) -> Option<Res> {
     PROGRESS.fetch_add(1, Ordering::Relaxed);
     let (run, nfire, step) = w(|w| {
         if !poll_prologue(w, id) {
@@ -292,7 +313,7 @@ fn leaf_poll(id: Cid, cx: &mut Context<'_>) -> Option<Res> {
     Some(res)
 }
 
-fn leaf_finish(id: Cid, r: Res) {
+pub fn leaf_finish(id: Cid, r: Res) {
     w(|w| {
         w.poll_stack.pop();
         ret_epilogue(w, id, r);
